@@ -1,30 +1,29 @@
-/* C06 — red-black tree: inductive step over a solver-chosen valid tree (index view, DESIGN 3.1).
+/* C07 — interval tree (red-black tree keyed by the lower bound + subtree_max aggregate): inductive step and query obligation.
  *  -DM=<nodes in the tree before the operation>; N = M+1 node objects; node N-1 is the one inserted.
- *  entries: harness_insert, harness_remove, harness_order_insert, harness_first, harness_script (native validation) */
+ *  entries: harness_insert, harness_remove, harness_query, harness_script (native validation) */
 #define VP_PANIC_VIOLATION
 #include "vp.h"
-#include "c06.h"
+#include "c07.h"
 #ifndef M
 #define M 3
 #endif
 #define N (M + 1)
-typedef struct S_struct_node node;
+typedef struct S_struct_ival node;
 node n0, n1, n2, n3, n4, n5, n6, n7, n8, n9, n10, n11;      /* separate objects, never an array (DESIGN 2.2) */
 static node *const NP[12] = {&n0, &n1, &n2, &n3, &n4, &n5, &n6, &n7, &n8, &n9, &n10, &n11};
-struct S_struct_frg___redblack__tree_struct tree;
-struct S_struct_frg___redblack__tree_order_struct otree;
-#define ROOT(ord) (*((ord) ? &otree.f0.f0 : &tree.f0.f0))
+struct S_struct_frg__interval_tree tree;
+#define ROOT(ord) (tree.f0.f0.f0)
 
 static node *ptr(int i) { node *r = 0; for(int k = 0; k < N; k++) if(i == k) r = NP[k]; return r; }
 static int idx(uint8_t *p) { int r = -1; for(int k = 0; k < N; k++) if((node *)p == NP[k]) r = k; if(p && r < 0) r = N; return r; }
 
-struct view { int root; int P[N], L[N], R[N], PR[N], SU[N], col[N]; int key[N]; };
+struct view { int root; int P[N], L[N], R[N], PR[N], SU[N], col[N]; int key[N]; int hi[N], smax[N]; };   /* key = lower bound */
 static void read_view(struct view *v, int ord) {
 	v->root = idx(ROOT(ord));
 	for(int i = 0; i < N; i++) {
 		node *n = NP[i];
 		v->P[i] = idx(n->f2.f0); v->L[i] = idx(n->f2.f1); v->R[i] = idx(n->f2.f2);
-		v->PR[i] = idx(n->f2.f3); v->SU[i] = idx(n->f2.f4); v->col[i] = (int)n->f2.f5; v->key[i] = (int32_t)n->f0;
+		v->PR[i] = idx(n->f2.f3); v->SU[i] = idx(n->f2.f4); v->col[i] = (int)n->f2.f5; v->key[i] = (int32_t)n->f0; v->hi[i] = (int32_t)n->f1; v->smax[i] = (int32_t)n->f3.f0;
 	}
 }
 static void write_view(const struct view *v, int ord) {
@@ -32,7 +31,7 @@ static void write_view(const struct view *v, int ord) {
 	for(int i = 0; i < N; i++) {
 		node *n = NP[i];
 		n->f2.f0 = (uint8_t *)ptr(v->P[i]); n->f2.f1 = (uint8_t *)ptr(v->L[i]); n->f2.f2 = (uint8_t *)ptr(v->R[i]);
-		n->f2.f3 = (uint8_t *)ptr(v->PR[i]); n->f2.f4 = (uint8_t *)ptr(v->SU[i]); n->f2.f5 = (uint32_t)v->col[i]; n->f0 = (uint32_t)v->key[i];
+		n->f2.f3 = (uint8_t *)ptr(v->PR[i]); n->f2.f4 = (uint8_t *)ptr(v->SU[i]); n->f2.f5 = (uint32_t)v->col[i]; n->f0 = (uint32_t)v->key[i]; n->f1 = (uint32_t)v->hi[i]; n->f3.f0 = (uint32_t)v->smax[i];
 	}
 }
 #define AT(a, i) ((i) < 0 ? 0 : (a)[i])
@@ -68,6 +67,8 @@ static int valid(const struct view *v, const int *in, const int *rank, int m, in
 		if(sz[i] != 1 + AT(sz, l) + AT(sz, r) || sz[i] > N) return 0;           /* fixpoint => acyclic */
 		if(bh[i] != AT(bh, l) + (v->col[i] == 2) || AT(bh, l) != AT(bh, r)) return 0;
 		if(v->col[i] != 1 && v->col[i] != 2) return 0;
+		{ int mx = v->hi[i]; if(l >= 0 && l < N && v->smax[l] > mx) mx = v->smax[l]; if(r >= 0 && r < N && v->smax[r] > mx) mx = v->smax[r];
+		  if(v->smax[i] != mx || v->key[i] > v->hi[i]) return 0; }      /* subtree_max aggregate exact; lo <= hi */
 		if(v->col[i] == 1 && ((l >= 0 && v->col[l] != 2) || (r >= 0 && v->col[r] != 2))) return 0;
 		if(l >= 0 && (l == r || !in[l] || v->P[l] != i)) return 0;
 		if(r >= 0 && (!in[r] || v->P[r] != i)) return 0;
@@ -103,7 +104,7 @@ static void havoc(int ord, int keys) {
 	for(int i = 0; i < N; i++) {
 		V.P[i] = SH_P[SHAPE][i]; V.L[i] = SH_L[SHAPE][i]; V.R[i] = SH_R[SHAPE][i]; V.col[i] = SH_col[SHAPE][i];
 		V.PR[i] = (i < M && i > 0) ? i - 1 : -1; V.SU[i] = (i + 1 < M) ? i + 1 : -1;
-		VP_INPUT(V.key[i]);
+		VP_INPUT(V.key[i]); VP_INPUT(V.hi[i]); VP_INPUT(V.smax[i]);
 		in[i] = i < M; rank[i] = i; m += in[i];
 	}
 #else
@@ -111,7 +112,7 @@ static void havoc(int ord, int keys) {
 	for(int i = 0; i < N; i++) {
 		V.P[i] = pick(); V.L[i] = pick(); V.R[i] = pick(); V.PR[i] = pick(); V.SU[i] = pick();
 		VP_INPUT(V.col[i]); VP_ASSUME(V.col[i] >= 0 && V.col[i] <= 2);
-		VP_INPUT(V.key[i]);
+		VP_INPUT(V.key[i]); VP_INPUT(V.hi[i]); VP_INPUT(V.smax[i]);
 		in[i] = i < M; rank[i] = i; m += in[i];      /* symmetry breaking: node i is the i-th element in order */
 	}
 #endif
@@ -133,16 +134,21 @@ void harness_shapes_complete(void) {     /* every state satisfying the invariant
 #endif
 static void check_height(int ht, int n) { VP_ASSERT(ht <= 2 * log2floor(n + 1), "height exceeds 2*log2(n+1)"); }
 
+
+int visits[N + 1];
+void vp_visit(node *n) { int i = idx((uint8_t *)n); VP_ASSERT(i >= 0 && i < N, "callback invoked with a pointer that is no stored interval"); visits[i]++; }
+
 void harness_insert(void) {
 	havoc(0, 1);
 	int x = N - 1, ht;
-	rb_insert(&tree, NP[x]);
+	VP_ASSUME(V.key[x] <= V.hi[x]);                 /* documented precondition of insert: lo <= hi (asserted by the library) */
+	it_insert(&tree, NP[x]);
 	struct view W; read_view(&W, 0);
 	int in2[N], rank2[N];
-	int pos = 0; for(int j = 0; j < N; j++) if(in[j] && V.key[j] <= V.key[x]) pos++;   /* stable: after every key <= the new one */
+	int pos = 0; for(int j = 0; j < N; j++) if(in[j] && V.key[j] <= V.key[x]) pos++;
 	for(int j = 0; j < N; j++) { in2[j] = in[j] || j == x; rank2[j] = j == x ? pos : (rank[j] >= pos ? rank[j] + 1 : rank[j]); }
-	VP_ASSERT(valid(&W, in2, rank2, m + 1, 1, &ht), "after insert: valid red-black tree holding exactly the old elements plus the new one, in comparator order with equal keys in insertion order, neighbour links exact");
-	check_height(ht, m + 1);
+	VP_ASSERT(valid(&W, in2, rank2, m + 1, 1, &ht), "after insert: valid red-black tree in lower-bound order with exact subtree_max aggregates");
+	for(int j = 0; j < N; j++) VP_ASSERT(W.key[j] == V.key[j] && W.hi[j] == V.hi[j], "interval endpoints changed");
 	VP_OBSERVE(W.root); VP_WITNESS(0, "insert reached");
 }
 void harness_remove(void) {
@@ -156,91 +162,49 @@ void harness_remove(void) {
 	havoc(0, 1);
 	VP_INPUT(x); VP_ASSUME(x >= 0 && x < N && in[x]);
 #endif
-	rb_remove(&tree, NP[x]);
+	it_remove(&tree, NP[x]);
 	struct view W; read_view(&W, 0);
 	int in2[N], rank2[N];
 	for(int j = 0; j < N; j++) { in2[j] = in[j] && j != x; rank2[j] = rank[j] > rank[x] ? rank[j] - 1 : rank[j]; }
-	VP_ASSERT(valid(&W, in2, rank2, m - 1, 1, &ht), "after remove: valid red-black tree holding exactly the other elements in unchanged order; removed element's links all reset");
-	check_height(ht, m - 1);
+	VP_ASSERT(valid(&W, in2, rank2, m - 1, 1, &ht), "after remove: valid red-black tree over the other intervals with exact subtree_max aggregates");
+	for(int j = 0; j < N; j++) VP_ASSERT(W.key[j] == V.key[j] && W.hi[j] == V.hi[j], "interval endpoints changed");
 	VP_OBSERVE(W.root); VP_WITNESS(0, "remove reached");
 	}
 }
-void harness_order_insert(void) {
-	int x = N - 1, b, ht;
-#ifdef SHAPE
-	for(int bc = -1; bc < M; bc++) {
-	b = bc;
-	havoc(1, 0);
-#else
-	{
-	havoc(1, 0);
-	VP_INPUT(b); VP_ASSUME(b >= -1 && b < N && (b < 0 || in[b]));
-#endif
-	rbo_insert(&otree, ptr(b), NP[x]);
-	struct view W; read_view(&W, 1);
-	int in2[N], rank2[N];
-	int pos = b < 0 ? m : rank[b];                  /* immediately before `before`, or last */
-	for(int j = 0; j < N; j++) { in2[j] = in[j] || j == x; rank2[j] = j == x ? pos : (rank[j] >= pos ? rank[j] + 1 : rank[j]); }
-	VP_ASSERT(valid(&W, in2, rank2, m + 1, 0, &ht), "after insert(before, x): valid red-black tree with x immediately before `before` (or last when null)");
-	check_height(ht, m + 1);
-	VP_OBSERVE(W.root); VP_WITNESS(0, "order insert reached");
-	}
-}
-void harness_order_remove(void) {
-	int x, ht;
-#ifdef SHAPE
-	for(int xc = 0; xc < M; xc++) {
-	x = xc;
-	havoc(1, 0);
-#else
-	{
-	havoc(1, 0);
-	VP_INPUT(x); VP_ASSUME(x >= 0 && x < N && in[x]);
-#endif
-	rbo_remove(&otree, NP[x]);
-	struct view W; read_view(&W, 1);
-	int in2[N], rank2[N];
-	for(int j = 0; j < N; j++) { in2[j] = in[j] && j != x; rank2[j] = rank[j] > rank[x] ? rank[j] - 1 : rank[j]; }
-	VP_ASSERT(valid(&W, in2, rank2, m - 1, 0, &ht), "after remove (comparator-less tree): valid tree over the other elements in unchanged order; removed element's links reset");
-	VP_WITNESS(0, "order remove reached");
-	}
-}
-void harness_first(void) {       /* navigation API on an arbitrary valid tree */
+void harness_query(void) {       /* for_overlaps on an ARBITRARY valid tree: callback exactly once per overlapping interval, never otherwise */
 	havoc(0, 1);
-	int want = -1; for(int j = 0; j < N; j++) if(in[j] && rank[j] == 0) want = j;
-	VP_ASSERT(idx((uint8_t *)rb_first(&tree)) == want, "first() is the smallest element (null when empty)");
-	VP_ASSERT(idx((uint8_t *)rb_root(&tree)) == V.root, "get_root()");
-	int i; VP_INPUT(i);
-	if(m == 0) { VP_WITNESS(0, "navigation reached (empty tree)"); return; }
-	VP_ASSUME(i >= 0 && i < N && in[i]);
-	int s = -1, p = -1; for(int j = 0; j < N; j++) if(in[j]) { if(rank[j] == rank[i] + 1) s = j; if(rank[j] == rank[i] - 1) p = j; }
-	VP_ASSERT(idx((uint8_t *)rb_succ(NP[i])) == s && idx((uint8_t *)rb_pred(NP[i])) == p, "successor()/predecessor() are the in-order neighbours");
-	VP_ASSERT(idx((uint8_t *)rb_left(NP[i])) == V.L[i] && idx((uint8_t *)rb_right(NP[i])) == V.R[i] && idx((uint8_t *)rb_parent(NP[i])) == V.P[i], "get_left/get_right/get_parent");
-	VP_WITNESS(0, "navigation reached");
+	int lb, ub, pt; VP_INPUT(lb); VP_INPUT(ub); VP_INPUT(pt);
+	if(pt & 1) { it_overlaps_point(&tree, lb); ub = lb; } else { VP_ASSUME(lb <= ub); it_overlaps(&tree, lb, ub); }
+	for(int i = 0; i < N; i++) {
+		int want = in[i] && V.key[i] <= ub && lb <= V.hi[i];
+		VP_ASSERT(visits[i] == want, "for_overlaps: callback count differs from [lo <= ub && lb <= hi] (missed, spurious or repeated interval)");
+	}
+	struct view W; read_view(&W, 0);
+	for(int j = 0; j < N; j++) VP_ASSERT(W.P[j] == V.P[j] && W.L[j] == V.L[j] && W.R[j] == V.R[j] && W.smax[j] == V.smax[j] && W.col[j] == V.col[j], "query modified the tree");
+	VP_OBSERVE(visits[0] + 2 * visits[1]); VP_WITNESS(0, "query reached");
 }
-
-/* native validation: pseudo-random insert/remove script from the empty tree; every reachable state must satisfy valid()
- * (so the invariant of the inductive step is not stronger than what real histories produce) and both builds must agree. */
 #ifdef VP_NATIVE
 void harness_script(void) {
-	int ord; VP_INPUT(ord); ord &= 1;
 	int seq[N], len = 0, cin[N];
 	for(int i = 0; i < N; i++) { cin[i] = 0; memset(NP[i], 0, sizeof(node)); }
-	if(ord) otree.f0.f0 = 0; else rb_init(&tree);
+	it_init(&tree);
 	for(int step = 0; step < 40; step++) {
 		unsigned r; VP_INPUT(r);
 		int x = r % N;
 		if(!cin[x]) {
-			int k; VP_INPUT(k); k = (k & 7);
-			if(ord) { int b = (r >> 8) % (len + 1); node *bp = b < len ? NP[seq[b]] : 0; rbo_insert(&otree, bp, NP[x]); for(int j = len; j > b; j--) seq[j] = seq[j - 1]; seq[b] = x; len++; }
-			else { NP[x]->f0 = (uint32_t)k; rb_insert(&tree, NP[x]); int pos = 0; while(pos < len && (int32_t)NP[seq[pos]]->f0 <= k) pos++; for(int j = len; j > pos; j--) seq[j] = seq[j - 1]; seq[pos] = x; len++; }
-			cin[x] = 1;
+			int k, w; VP_INPUT(k); VP_INPUT(w); k &= 7; w &= 7;
+			NP[x]->f0 = (uint32_t)k; NP[x]->f1 = (uint32_t)(k + w); it_insert(&tree, NP[x]);
+			int pos = 0; while(pos < len && (int32_t)NP[seq[pos]]->f0 <= k) pos++; for(int j = len; j > pos; j--) seq[j] = seq[j - 1]; seq[pos] = x; len++; cin[x] = 1;
 		} else {
-			if(ord) rbo_remove(&otree, NP[x]); else rb_remove(&tree, NP[x]);
+			it_remove(&tree, NP[x]);
 			int pos = 0; while(seq[pos] != x) pos++; for(int j = pos; j < len - 1; j++) seq[j] = seq[j + 1]; len--; cin[x] = 0;
 		}
-		struct view W; read_view(&W, ord); int rk[N], ht; for(int j = 0; j < N; j++) rk[j] = -1; for(int j = 0; j < len; j++) rk[seq[j]] = j;
-		VP_ASSERT(valid(&W, cin, rk, len, !ord, &ht), "script: reachable state violates the invariant used by the inductive step");
+		struct view W; read_view(&W, 0); int rk[N], ht; for(int j = 0; j < N; j++) rk[j] = -1; for(int j = 0; j < len; j++) rk[seq[j]] = j;
+		VP_ASSERT(valid(&W, cin, rk, len, 1, &ht), "script: reachable state violates the invariant used by the inductive step");
+		int lb = (r >> 8) & 15, ub = lb + ((r >> 12) & 7);
+		for(int j = 0; j < N; j++) visits[j] = 0;
+		it_overlaps(&tree, lb, ub);
+		for(int j = 0; j < N; j++) VP_ASSERT(visits[j] == (cin[j] && (int32_t)NP[j]->f0 <= ub && lb <= (int32_t)NP[j]->f1), "script: for_overlaps result wrong");
 		VP_OBSERVE(W.root * 1000 + ht * 100 + len);
 	}
 }
